@@ -33,3 +33,49 @@ Definition sstate := @state spath spath.
 Definition step (fuel : nat) (w : sworld) (st : sstate) (raw : bool) (p : spath) (c : scontent)
   : outcome sstate :=
   if raw then Done (raw_set_content st p c) else touch fuel w st p c.
+
+(** a flat numeric digest of a session state (id table order, per file: id, content tag, include map;
+    source root; the index trace), used by the checks to cross-check the extracted OCaml code against
+    [vm_compute] inside Coq on a slice of every batch *)
+Definition ev_digest (e : event) : list N :=
+  match e with
+  | EvFile f => [1; f]
+  | EvDecl f n => [2; f; n]
+  | EvNotFound f (lo, hi) => [3; f; lo; hi]
+  end.
+
+Definition digest (fuel : nat) (st : sstate) : list N :=
+  let '(fs, db) := st in
+  flat_map (fun pf : spath * N =>
+              let f := snd pf in
+              f :: match fc db f with Some c => 1 + c_tag c | None => 0 end
+                :: match rim db f with
+                   | Some m => (1 + N.of_nat (length m))
+                               :: flat_map (fun x : rng * N => [fst (fst x); snd (fst x); snd x]) m
+                   | None => [0]
+                   end)
+           (rev (ids fs))
+  ++ match sroot db with
+     | Some (fset, root) => (1 + root) :: map fst fset
+     | None => [0]
+     end
+  ++ match sroot db with
+     | None => []
+     | Some _ => match index fuel db with
+                 | Done tr => 1 :: flat_map ev_digest tr
+                 | OutOfFuel => [2]
+                 | Panic _ => [3]
+                 end
+     end.
+
+Fixpoint run_digests (fuel : nat) (w : sworld) (st : sstate) (h : list (bool * spath * scontent))
+  : list (list N) :=
+  match h with
+  | [] => []
+  | (raw, p, c) :: r =>
+      match step fuel w st raw p c with
+      | Done st' => digest fuel st' :: run_digests fuel w st' r
+      | OutOfFuel => [[777777]]
+      | Panic _ => [[888888]]
+      end
+  end.
